@@ -34,13 +34,21 @@ from vq.refs import c09_ref as ref
 
 LOSS_TYPES = ["l2_amplitude", "l1_amplitude", "l2_intensity", "l1_intensity", "poisson"]
 
-# tolerances for the invariance kind (relative; loss: to |full-batch loss|, gradients: to the largest
-# |component| of the full-batch gradient of that parameter).  Measured on the clean tree over ~400
-# cases: float32 loss <= 2.4e-7, gradients <= 1.3e-6; float64 loss <= 7e-16, gradients <= 3e-15
-# (see coverage.extra max_err_over_tol).  Seeded scaling errors are O(1).
+# Tolerances for the invariance kind.  loss: relative to |full-batch loss| (l1/l2 losses are sums of
+# non-negative terms, so this is well conditioned; the Poisson loss can in principle cancel, so its
+# scale is floored at 0.5 per pattern -- with the generator's normalised data it is 1.8-2.4 per pattern
+# and every term is positive).  grad: relative to the largest |component| of the full-batch gradient
+# of the same parameter tensor.
+# Measured on the clean tree over ~1200 cases: float64 loss <= 3.8e-16, gradients <= 1.5e-14;
+# float32 loss <= 2.4e-7, object/probe gradients <= 4.5e-6, dataset (descan / scan position)
+# gradients <= 6.1e-5.  The float32 errors are heavy-tailed: different batch shapes take different
+# FFT/reduction paths, and 1/sqrt(I+1e-9) resp. 1/(I+1e-6) weights amplify last-bit differences at dark
+# pixels (the float32 full-batch gradient itself is only 5e-5 from the float64 one in the worst
+# case seen), hence the wide float32 margins; the float64 half of the cases carries the sharp test.
+# Batch-fraction scaling errors are O(1) (>= 1/2 for two batches).
 TOL = {
-    False: {"loss": 1e-5, "grad": 3e-5},  # float32 / complex64 configuration
-    True: {"loss": 1e-11, "grad": 1e-10},  # float64 / complex128 configuration
+    False: {"loss": 1e-4, "grad:object": 1e-3, "grad:probe": 1e-3, "grad:dataset": 1e-2},  # float32 / complex64
+    True: {"loss": 1e-10, "grad:object": 1e-8, "grad:probe": 1e-8, "grad:dataset": 1e-8},  # float64 / complex128
 }
 
 STATS = {}
@@ -336,18 +344,19 @@ def _check_invariance(ctx, case):
         if not any(v > 0 for v in gmax.values()):
             raise core.HarnessError("all full-batch gradients vanish: comparison would be vacuous")
         pre = "f64 " if hi else "f32 "
+        scaleL = max(abs(L0), 0.5 * n_train) if case["loss_type"] == "poisson" else abs(L0)
         for b in ref.divisors(n_train):
             L, G, tb = run(b)
             if len(tb) != n_train // b:
                 _fail(case, "batch_size=%d over %d training patterns ran %d batches" % (b, n_train, len(tb)))
             ctx.count("inv:batch_sizes_compared")
-            errL = abs(L - L0) / abs(L0)
+            errL = abs(L - L0) / scaleL
             _stat(pre + "loss", errL / tol["loss"])
             if not errL <= tol["loss"]:
                 _fail(
                     case,
                     "loss_type=%s: mean of the %d per-batch losses at batch_size=%d is %.9g, full-batch loss is %.9g "
-                    "(relative difference %.3e > %.1e)" % (case["loss_type"], len(tb), b, L, L0, errL, tol["loss"]),
+                    "(difference %.3e of the loss scale %.3g > %.1e)" % (case["loss_type"], len(tb), b, L, L0, errL, scaleL, tol["loss"]),
                 )
             for k in G0:
                 if G[k].shape != G0[k].shape:
@@ -356,12 +365,13 @@ def _check_invariance(ctx, case):
                     ctx.count("inv:zero_full_batch_gradient_skipped")
                     continue
                 errG = float(np.max(np.abs(G[k] - G0[k]))) / gmax[k]
-                _stat(pre + "grad", errG / tol["grad"])
-                if not errG <= tol["grad"]:
+                tolG = tol["grad:" + k.split("[")[0]]
+                _stat(pre + "grad " + k, errG / tolG)
+                if not errG <= tolG:
                     _fail(
                         case,
                         "loss_type=%s: mean over %d batches (batch_size=%d) of the gradient of %s differs from the "
-                        "full-batch gradient by %.3e of its largest component (> %.1e)" % (case["loss_type"], len(tb), b, k, errG, tol["grad"]),
+                        "full-batch gradient by %.3e of its largest component (> %.1e)" % (case["loss_type"], len(tb), b, k, errG, tolG),
                     )
 
 
